@@ -209,6 +209,13 @@ class IntervalTier(textgrid_tier.TextgridTier):
 
     def deleteEntry(self, entry: Interval) -> None:
         """Removes an entry from the entries"""
+        # Entries that are merely close to each other compare as equal;
+        # if the entry itself is in the list, that is the one to remove
+        for i, existingEntry in enumerate(self._entries):
+            if tuple(existingEntry) == tuple(entry):
+                self._entries.pop(i)
+                return
+
         self._entries.pop(self._entries.index(entry))
 
     def difference(self, tier: "IntervalTier") -> "IntervalTier":
